@@ -125,8 +125,14 @@ def get_jump_cache_size(opname: str, version_tuple: tuple) -> int:
 
 
 def findlabels(code, opc):
-    if opc.version_tuple < (3, 10):
+    if opc.version_tuple < (3, 6):
         return findlabels_pre_310(code, opc)
+    elif opc.version_tuple < (3, 10):
+        # 3.6 .. 3.9 is word code: two bytes per instruction, one-byte operands.
+        # (Imported here: xdis.wordcode itself imports from this module.)
+        from xdis.wordcode import findlabels as findlabels_wordcode
+
+        return findlabels_wordcode(code, opc)
     else:
         return findlabels_310(code, opc)
 
